@@ -351,6 +351,37 @@ example : binarySample.wf = true ∧ binarySample.noLeadingWs = true := by decid
 example : binarySample.codeTokens =
     ["a", "//", "b", "//", "{", "}", "++", "[", "]", "==", "!", "c"].map String.toList := by decide
 
+/-- full statement (false): the text the round trip writes determines the code tokens of the tree it was
+    written from — i.e. re-lexing the output gives the tokens back (the theorems above speak about the
+    PIECES of the output, not about the lexer's reading of their concatenation) -/
+def frag_output_determines_tokens_full : Prop :=
+  ∀ (f1 f2 : File), f1.wf = true → f2.wf = true → f1.noLeadingWs = true → f2.noLeadingWs = true →
+    f1.roundtrip = f2.roundtrip → f1.codeTokens = f2.codeTokens
+
+/-- `- ./p.nix` -/
+def minusPathFile : File :=
+  { items := .elem [] (.un "-".toList [] " ".toList (.leaf .path "./p.nix".toList)) .nil, endGap := "\n".toList }
+/-- `-./p.nix`: one path token -/
+def fusedPathFile : File :=
+  { items := .elem [] (.leaf .path "-./p.nix".toList) .nil, endGap := "\n".toList }
+
+/-- NEW FINDING `C01-fragment-unary-minus-path-fused`: `UnaryExpression.rebuild` (expressions/unary.py) writes
+    the operator directly in front of an operand that follows it on the same line; for `-` in front of a
+    path literal that does not start with `<` the two tokens `-`, `./p.nix` become the ONE path token
+    `-./p.nix` (`- ./p.nix` -> `-./p.nix`; Nix's path syntax allows `-` in a path component): the
+    unary minus disappears from the program. The pieces of the output are still `-` and `./p.nix`
+    (`frag_tokens_preserved`), but two different trees of the fragment are written as the same text.
+    Decidable exclusion where the output is re-read: `Cst.fusesMinus` in `Cst.cf` (C06). -/
+theorem cex_unary_minus_path_fused : ¬ frag_output_determines_tokens_full := by
+  intro h
+  have := h minusPathFile fusedPathFile (by decide) (by decide) (by decide) (by decide) (by decide)
+  revert this; decide
+
+example : minusPathFile.flatten = "- ./p.nix\n".toList := by decide
+example : minusPathFile.roundtrip = .ok "-./p.nix\n".toList := by decide
+example : fusedPathFile.roundtrip = .ok "-./p.nix\n".toList := by decide
+example : minusPathFile.items.cf = false ∧ fusedPathFile.items.cf = true := by decide
+
 end Fragment
 
 end Nima.C01
